@@ -12,7 +12,7 @@ from __future__ import annotations
 import sympy as sp
 
 from ..algebra import Untranslatable, is_zero, to_sympy
-from ..core.terms import (c, evaluate, fn_name, kw, n, pretty, substitute, subterms)
+from ..core.terms import (cmp_, not_, pc, phi_, c, evaluate, fn_name, kw, n, pretty, substitute, subterms)
 from .common import LIB_FACTS, is_call, method, short
 
 DR = "liesel.model.distreg"
@@ -196,9 +196,9 @@ def check(ctx):
     rank_arg = kw(rtf, "rank", 2) if rtf is not None and rtf[0] == "call" else None
     lp_arg = kw(rtf, "log_pdet", 3) if rtf is not None and rtf[0] == "call" else None
     supplied = {("cmp", "is", n("rank"), c(None)): False,
-                ("cmp", "is not", n("rank"), c(None)): True}
+                }
     lpn = ("cmp", "is", n("log_pdet"), c(None))
-    lpnn = ("cmp", "is not", n("log_pdet"), c(None))
+    lpnn = ("n", "__unused__")
     for label, facts in (("log_pdet not supplied", {**supplied, lpn: True, lpnn: False}),
                          ("log_pdet supplied", {**supplied, lpn: False, lpnn: True})):
         red = partial_eval(rank_arg, facts) if rank_arg is not None else None
